@@ -14,6 +14,7 @@ ill-formed answers `bad-op`).
   GEN <start> <startPrime> <eoi> <prods>
                                the model generator `gen G` (level B): `gen conflicts=<0|1> n=<states>
                                items=<..> actions=<..|?> gotos=<..>` | `gen out-of-fuel`
+  REDUCED                      `reduced=<0|1>`: the productivity check `Gen.reducedB` on the current grammar (GRAM)
   GENV <start> <startPrime> <eoi> <prods>
                                the model generator's own output through the compiled validator and the
                                termination analysis (what `C08_gen_valid` proves for every grammar):
@@ -319,6 +320,10 @@ def handlePure (st : St) (line : String) : St × String :=
            | some o => showGen o
            | none => "gen out-of-fuel")
     | _, _, _, _ => (st, "bad-op")
+  | ["REDUCED"] =>
+    match st.gram with
+    | some g => (st, if Gen.reducedB g then "reduced=1" else "reduced=0")
+    | none => (st, "bad-op")
   | ["GENV", start, sp, eoi, prods] =>
     match start.toNat?, sp.toNat?, eoi.toNat?, parseRules prods with
     | some start, some sp, some eoi, some prods =>
